@@ -168,6 +168,24 @@ def pyEqDict : List (List Nat × PyVal) → List (List Nat × PyVal) → Bool
      | Option.none => false) && pyEqDict rest b
 end
 
+mutual
+/-- What every Python object satisfies and the models cannot express in the type: the keys of a
+`dict` / Mapping are pairwise different, recursively. A hypothesis of theorems that count fields. -/
+def WF : PyVal → Prop
+  | list xs => WFList xs
+  | tuple xs => WFList xs
+  | iter xs => WFList xs
+  | dict kvs => (kvs.map (·.1)).Nodup ∧ WFDict kvs
+  | mapping kvs => (kvs.map (·.1)).Nodup ∧ WFDict kvs
+  | _ => True
+def WFList : List PyVal → Prop
+  | [] => True
+  | x :: xs => WF x ∧ WFList xs
+def WFDict : List (List Nat × PyVal) → Prop
+  | [] => True
+  | (_, v) :: rest => WF v ∧ WFDict rest
+end
+
 end PyVal
 
 /-- CPython conversions whose exact result the models do not compute: parameters of every
